@@ -484,7 +484,8 @@ func (sm *shardManagerImpl) retryJoinCluster() {
 func (sm *shardManagerImpl) RegisterShard(clientShardID history.ClusterShardID) time.Time {
 	sm.logger.Info("RegisterShard", tag.NewStringTag("shard", ClusterShardIDtoString(clientShardID)))
 	registeredAt := sm.addLocalShard(clientShardID)
-	sm.broadcastShardChange("register", clientShardID)
+	// Announce the registration time itself: receivers compare it with their own claim.
+	sm.broadcastShardChange("register", clientShardID, registeredAt)
 
 	// Trigger memberlist metadata update to propagate NodeMeta to other nodes
 	// Run asynchronously to avoid blocking callers
@@ -520,7 +521,7 @@ func (sm *shardManagerImpl) UnregisterShard(clientShardID history.ClusterShardID
 		// Update metrics after local shards change
 		sm.mutex.Unlock()
 
-		sm.broadcastShardChange("unregister", clientShardID)
+		sm.broadcastShardChange("unregister", clientShardID, time.Now())
 
 		// Trigger memberlist metadata update to propagate NodeMeta to other nodes
 		// Run asynchronously to avoid blocking callers
@@ -876,7 +877,7 @@ func (sm *shardManagerImpl) GetIntraProxyTLSConfig() encryption.TLSConfig {
 	return sm.intraProxyTLSConfig
 }
 
-func (sm *shardManagerImpl) broadcastShardChange(msgType string, shard history.ClusterShardID) {
+func (sm *shardManagerImpl) broadcastShardChange(msgType string, shard history.ClusterShardID, timestamp time.Time) {
 	if !sm.started || sm.ml == nil || sm.memberlistConfig == nil {
 		return
 	}
@@ -885,7 +886,7 @@ func (sm *shardManagerImpl) broadcastShardChange(msgType string, shard history.C
 		Type:        msgType,
 		NodeName:    sm.GetNodeName(),
 		ClientShard: shard,
-		Timestamp:   time.Now(),
+		Timestamp:   timestamp,
 	}
 
 	data, err := json.Marshal(msg)
